@@ -470,11 +470,12 @@ sp_cgemv(char *trans, complex alpha, SuperMatrix *A, complex *x,
     complex temp, temp1;
     int_t lenx, leny, i, j, irow;
     int_t iy, jx, jy, kx, ky;
-    int_t notran;
+    int_t notran, conjtr;
     complex comp_zero = {0.0, 0.0};
     complex comp_one = {1.0, 0.0};
 
     notran = lsame_(trans, "N");
+    conjtr = lsame_(trans, "C");
     Astore = A->Store;
     Aval = Astore->nzval;
     
@@ -563,7 +564,8 @@ sp_cgemv(char *trans, complex alpha, SuperMatrix *A, complex *x,
 		temp = comp_zero;
 		for (i = Astore->colptr[j]; i < Astore->colptr[j+1]; ++i) {
 		    irow = Astore->rowind[i];
-		    cc_mult(&temp1, &Aval[i], &x[irow]);
+		    if ( conjtr ) { cc_conj(&temp1, &Aval[i]); cc_mult(&temp1, &temp1, &x[irow]); }
+		    else cc_mult(&temp1, &Aval[i], &x[irow]);
 		    c_add(&temp, &temp, &temp1);
 		}
 		cc_mult(&temp1, &alpha, &temp);
